@@ -411,4 +411,7 @@ func genC12(r *rand.Rand, t *Trace, thorough bool) {
 		}
 		t.Emit(runHNSWHistory(r, p, o, t), tag)
 	}
+	for it := 0; it < 4+n/30; it++ {
+		runHybridHNSWDiff(r, t) // the exactness clause seen through the hybrid index
+	}
 }
